@@ -237,11 +237,13 @@ namespace nmtools::view
             if constexpr (meta::is_resizable_v<slices_type>) {
                 slices.resize(dim);
             }
+            // a negative axis counts from the end, as in numpy
+            auto m_axis = index::wrap_axis(axis,dim);
             for (size_t i=0; i<dim; i++) {
                 // index at axis i
                 auto s = at(indices_,i);
-                using common_t = meta::promote_index_t<decltype(axis),size_t>;
-                auto start = (common_t)i==(common_t)axis ? 0 : s;
+                using common_t = meta::promote_index_t<decltype(m_axis),size_t>;
+                auto start = (common_t)i==(common_t)m_axis ? 0 : s;
                 auto stop  = s + 1;
                 at(slices,i) = {start,stop};
             }
